@@ -62,6 +62,13 @@ COMBOS = [
     # a private generator drained by str.join is evaluated as the list builder it is: a defect inside it is still seen
     ("ben32-4.diff", "util.py", r"if isinstance\(v, Sequence\) and len\(v\) > 1:", "if isinstance(v, Sequence):", ["C18"]),
     ("ben31-5.diff", "chart.py", r'yield f"\{self\.sync_track\}"', 'yield f"{self.sync_track:>10d}"', ["C18"]),
+    # guard-style option helper (`m = _first(...); if m is None: raise; use m`) and a scan returning the range variable or None
+    ("ben36-2.diff", "metadata.py", r"(?m)^        if m:\n            return m$", "        if m and line:\n            return m", ["C10"]),
+    ("ben36-2.diff", "metadata.py", r"processing_fn\(m\.group\(1\)\)", "processing_fn(m.group(0))", ["C10"]),
+    ("ben33-6.diff", "sync.py", r"for index in range\(start_index, index_of_last_event\):", "for index in range(start_index + 1, index_of_last_event):", ["C11", "C01"]),
+    # a private procedure called as a statement in the routing loop (spliced): a defect inside it is still seen
+    ("ben35-1.diff", "chart.py", r"if want_tracks is not None and", "if want_tracks and", ["C13"]),
+    ("ben35-1.diff", "chart.py", r"instrument_tracks\.setdefault\(instrument, dict\(\)\)\[difficulty\] = track", "instrument_tracks.setdefault(instrument, dict()).setdefault(difficulty, track)", ["C06", "C13"]),
 ]
 
 
